@@ -727,26 +727,35 @@ def _default_key_ok(act, xs):
     return not (act[0] in (A_TOP, A_TAKEORDERED) and act[2] == -1 and not _all_type(xs, int))
 
 
+# minimised past disagreements between model and implementation (kept first in every run)
+REGRESSIONS = [
+    # lookup chains filter and values lazily: [1][1] raises IndexError before 4[0] raises TypeError
+    ([([1], 2), [1], (7,), 4], 2, [], (A_LOOKUP, 1)),
+    ([[1], 4], 1, [], (A_LOOKUP, 1)),
+    ([4, [1]], 1, [], (A_LOOKUP, 1)),
+    (['a', (1,), 5], 3, [], (A_LOOKUP, 'a')),
+]
+
+
 def generate(rng, tier):
     quick = tier == 'quick'
-    cases = []
+    cases = [copy.deepcopy(c) for c in REGRESSIONS]
     ints = [0, 1, 2]
     mixed = [(0, 1), (1, 'a'), 'ab']
     # (1) exhaustive small scope: single stages
     small_inputs = list(_inputs_upto(ints, 3)) + [x for x in _inputs_upto(mixed, 3) if x]
     stages = all_single_stages()
+    keep = {0: 1.0, 1: 1.0, 2: 0.4, 3: 0.06} if quick else {0: 1.0, 1: 1.0, 2: 1.0, 3: 1.0}
     for xs in small_inputs:
-        if quick and len(xs) == 3 and rng.random() < 0.75:
-            continue
         for st in stages:
+            if rng.random() >= keep[len(xs)]:
+                continue
             for n in range(1, len(xs) + 3):
                 cases.append((copy.deepcopy(xs), n, [copy.deepcopy(st)], (A_COLLECT,)))
     # single actions
     for xs in small_inputs:
-        if quick and len(xs) == 3 and rng.random() < 0.75:
-            continue
         for ac in all_actions():
-            if not _default_key_ok(ac, xs):
+            if not _default_key_ok(ac, xs) or rng.random() >= keep[len(xs)]:
                 continue
             for n in range(1, len(xs) + 3):
                 cases.append((copy.deepcopy(xs), n, [], copy.deepcopy(ac)))
@@ -762,7 +771,7 @@ def generate(rng, tier):
             cases.append((copy.deepcopy(xs), n, [(T_MAP, 4)], (A_COUNT,)))
             cases.append((copy.deepcopy(xs), n, [(T_ZIPWITHINDEX,), (T_COALESCE, 3)], (A_FIRST,)))
     # (2) random pipelines
-    for _ in range(1200 if quick else 30000):
+    for _ in range(1500 if quick else 30000):
         cases.append(gen_pipeline(rng))
     return cases
 
